@@ -60,11 +60,15 @@ func main() {
 		fatal("config: %v", err)
 	}
 	changed := 0
+	failed := 0
 	for _, u := range units {
 		text, err := translateUnit(u)
 		if err != nil {
-			fmt.Fprintf(os.Stderr, "gen: %s: %v\n", u.Out, err)
-			os.Exit(2)
+			// the other units are still regenerated: a check whose theorems do not depend on this unit is not concerned
+			// (the stale file of the refused unit is left alone; every check that depends on it reports the refusal)
+			fmt.Printf("gen: REFUSED %s: %v\n", u.Out, err)
+			failed++
+			continue
 		}
 		path := filepath.Join(*outDir, u.Out)
 		old, _ := os.ReadFile(path)
@@ -76,7 +80,10 @@ func main() {
 			fmt.Printf("gen: wrote %s\n", path)
 		}
 	}
-	fmt.Printf("gen: %d unit(s), %d changed\n", len(units), changed)
+	fmt.Printf("gen: %d unit(s), %d changed, %d refused\n", len(units), changed, failed)
+	if failed > 0 {
+		os.Exit(3)
+	}
 }
 
 func fatal(f string, a ...interface{}) {
